@@ -226,7 +226,13 @@ func (g *Graph) Variant(r *rand.Rand) (string, []string) {
 		}
 		for _, p := range n.Props {
 			vals := make([]any, 0, len(p.Values)+1)
-			for _, v := range p.Values {
+			pvals := p.Values
+			if len(pvals) > 1 && r.Intn(3) == 0 {
+				// the values of a property are a set: their order in the document is surface form
+				pvals = Shuffled(r, pvals)
+				mark("value-order")
+			}
+			for _, v := range pvals {
 				rv := renderValue(v, depth, path, render)
 				vals = append(vals, rv)
 				if _, embedded := rv.(*OObj); r.Intn(10) == 0 && !(embedded && rv.(*OObj).has("@type")) {
